@@ -17,9 +17,10 @@ package xstar
 //@ func (*socket).RemovePipe
 //@   assumes cast("*pipe", pp.GetPrivate()).s == s
 //@ func (*pipe).receiver
+//@   before call:Unlock#1 assert held(s.Mutex) && ttl == s.ttl
 //@   ghost body0 = result.Body at call:RecvMsg#1
-//@   at call:Free#1 assert len(body0) < 4 || body0[0] != 0 || body0[1] != 0 || body0[2] != 0 || body0[3] >= s.ttl
-//@   at select#2 assert selidx == 0 ==> len(body0) >= 4 && body0[0] == 0 && body0[1] == 0 && body0[2] == 0 && body0[3] < at("call:RecvMsg#1", s.ttl)
+//@   at call:Free#1 assert len(body0) < 4 || body0[0] != 0 || body0[1] != 0 || body0[2] != 0 || body0[3] >= ttl
+//@   at select#2 assert selidx == 0 ==> len(body0) >= 4 && body0[0] == 0 && body0[1] == 0 && body0[2] == 0 && body0[3] < ttl
 //@
 //@ func (*socket).SendMsg
 //@   loop 1 complete
